@@ -98,3 +98,30 @@ def functions():
     seg = ast.get_source_segment(src, fn)
     return [dict(file="src/catii/iindexes.py", name="fit_dtype", lines="%d-%d" % (fn.lineno, fn.end_lineno),
                  sha256=hashlib.sha256(seg.encode()).hexdigest())]
+
+
+DUMP_VCS = {"quick": 40, "thorough": 40}
+
+
+def cross_check(tier, had_violation, dumps=()):
+    """Second engine: CrossHair on the same source text (crosscheck/ch_fit.py)."""
+    import subprocess
+    import sys
+    here = os.path.dirname(os.path.dirname(os.path.abspath(__file__)))
+    env = dict(os.environ, PYTHONPATH=here)
+    r = subprocess.run([sys.executable, "-m", "crosshair", "check", "--report_all", "--per_condition_timeout", "120",
+                        os.path.join(here, "crosscheck", "ch_fit.py")], cwd=here, env=env, stdout=subprocess.PIPE,
+                       stderr=subprocess.STDOUT, text=True, timeout=600)
+    lines = [l.split(": ", 1)[1] if ": " in l else l for l in r.stdout.strip().splitlines()]
+    confirmed = sum(1 for l in lines if "Confirmed over all paths" in l)
+    refuted = [l for l in lines if l.startswith("error")]
+    out = {"crosshair": {"confirmed_conditions": confirmed, "refuted": refuted[:3], "raw": lines[:6]}}
+    if refuted and not had_violation:
+        out["disagree"] = True
+    from symex import second_solver
+    out["cvc5"] = second_solver.redecide(list(dumps))
+    if out["cvc5"]["sat"]:
+        out["disagree"] = True
+    if not refuted and confirmed < 2 and not had_violation:
+        out["crosshair"]["note"] = "not confirmed over all paths (inconclusive second opinion)"
+    return out
